@@ -71,7 +71,7 @@ HTTPParts(s) == LET segs == SplitAt(s, "SLASH") IN [i \in DOMAIN segs |-> [j \in
 (* the call methods the harness configures for PUT, DELETE and PATCH *)
 Mapped == [PUT |-> <<"a">>, DELETE |-> <<"a", "a">>, PATCH |-> <<"a", "a", "a">>]
 
-HTTP(method, s) ==
+HTTP0(method, s) ==
     LET rawOK == s # <<>> /\ "DOT" \notin Range(s) /\ s[Len(s)] # "SLASH"
         s1 == IF s # <<>> /\ s[1] = "SLASH" THEN Tail(s) ELSE s     \* one leading slash is dropped
         parts == HTTPParts(s1)
@@ -89,4 +89,8 @@ HTTP(method, s) ==
                 act == IF Len(parts) >= 2 THEN parts[Len(parts)] ELSE <<>>
             IN [valid |-> ok /\ ValidPart(act) /\ ValidRID(rid),
                 subs |-> {Sub("access", NameOf(rid), <<>>), Sub("call", NameOf(rid), Raw(act))}]
+
+(* "QRY" as the last symbol is a query string on the URL itself: it becomes the query of the resource id and changes  *)
+(* neither what is valid nor any subject (the method of a call is validated whether or not a query follows)            *)
+HTTP(method, s) == IF s # <<>> /\ s[Len(s)] = "QRY" THEN HTTP0(method, SubSeq(s, 1, Len(s) - 1)) ELSE HTTP0(method, s)
 =============================================================================
